@@ -129,7 +129,8 @@ def last_case(keep, full=False):
 def signature(msg):
     m = re.search(r"violated=([\w,]+)", msg)
     at = re.search(r"at=(\w*)", msg)
-    return "inv:%s@%s" % (m.group(1) if m else "?", at.group(1) if at else "")
+    # one signature per violated clause set and harness mode (not per pass boundary: a broken graph stays broken at every later boundary)
+    return "inv:%s@%s" % (m.group(1) if m else "?", "design" if at and at.group(1) else "ops")
 
 
 def proof_stage():
